@@ -52,6 +52,7 @@ type FuncInfo struct {
 	LoopInv  map[int][]*GenFunc
 	LoopDec  map[int]*GenFunc
 	LoopSplit map[int][]*GenFunc
+	LawWhen  map[*Clause]*GenFunc
 	Split    []*GenFunc
 	Scope    *types.Scope
 	declPkg  *types.Package
@@ -280,6 +281,11 @@ func loadWorld(repo string, extraContractFiles []string) (*World, error) {
 				return nil, err
 			}
 		}
+		for _, g := range fi.LawWhen {
+			if err := bind(g); err != nil {
+				return nil, err
+			}
+		}
 		for _, gs := range fi.LoopSplit {
 			for _, g := range gs {
 				if err := bind(g); err != nil {
@@ -485,7 +491,7 @@ func generateSpecs(w *World, p *packages.Package, contracts []*FuncContract) (st
 		if err != nil {
 			return "", fmt.Errorf("%s:%d: %v", fc.File, fc.Line, err)
 		}
-		fi := &FuncInfo{Key: fc.Key, C: fc, Sig: sig, Decl: decl, Body: fbody, LoopInv: map[int][]*GenFunc{}, LoopDec: map[int]*GenFunc{}, LoopSplit: map[int][]*GenFunc{}}
+		fi := &FuncInfo{Key: fc.Key, C: fc, Sig: sig, Decl: decl, Body: fbody, LoopInv: map[int][]*GenFunc{}, LoopDec: map[int]*GenFunc{}, LoopSplit: map[int][]*GenFunc{}, LawWhen: map[*Clause]*GenFunc{}}
 		if recv := sig.Recv(); recv != nil {
 			n := recv.Name()
 			if n == "" || n == "_" {
@@ -637,6 +643,15 @@ func generateSpecs(w *World, p *packages.Package, contracts []*FuncContract) (st
 				return "", fmt.Errorf("%s:%d: %v", fc.File, c.Line, err)
 			}
 			fi.Split = append(fi.Split, g)
+		}
+		for li, c := range fc.Laws {
+			if i := strings.Index(c.Text, " when "); i >= 0 {
+				g, err := mk(fmt.Sprintf("vc_%s_law%d_when", san, li+1), "bool", c.Text[i+6:], false, nil, false)
+				if err != nil {
+					return "", fmt.Errorf("%s:%d: %v", fc.File, c.Line, err)
+				}
+				fi.LawWhen[c] = g
+			}
 		}
 		mi := 0
 		for _, c := range fc.Modifies {
